@@ -41,7 +41,8 @@ ASSUMPTIONS = [
     "expected ConnectionError/UDSException map to 74 only for Scanner-based commands (plain scripts declare no expected exceptions)",
 ]
 
-KINDS = ["return", "exit0", "exit3", "exit255", "exitstr", "connerr", "udsexc", "runtime", "kbd"]
+# "connerr+bug": an expected connection error in main, and while it is being handled teardown fails with a programming error
+KINDS = ["return", "exit0", "exit3", "exit255", "exitstr", "connerr", "udsexc", "runtime", "kbd", "connerr+bug"]
 POINTS = ["setup-early", "setup", "main", "teardown"]
 CMDS = ["plain", "scanner", "uds"]
 HOOKS = ["none", "ok", "fail", "missing", "signal"]
@@ -60,12 +61,18 @@ def expected_code(case: dict[str, Any]) -> int:
         return {"exit0": 0, "exit3": 3, "exit255": 255, "exitstr": 70}[k]
     if k in ("connerr", "udsexc"):
         return 74 if case["cmd"] in ("scanner", "uds") else 70
-    if k == "runtime":
-        return 70
+    if k in ("runtime", "connerr+bug"):
+        return 70  # an unexpected exception is an internal error, whatever was going on when it was raised
     return 130
 
 
 def act(case: dict[str, Any], point: str) -> None:
+    if case["kind"] == "connerr+bug":
+        if point == "main":
+            raise ConnectionResetError("peer gone")
+        if point == "teardown":
+            raise RuntimeError("bug in teardown")
+        return
     if case["kind"] == "return" or case["point"] != point:
         return
     k = case["kind"]
@@ -561,7 +568,7 @@ def check(case: dict[str, Any]) -> list[tuple[str, str]]:
 @st.composite
 def case_s(draw) -> dict[str, Any]:
     kind = draw(st.sampled_from(KINDS))
-    return {"cmd": draw(st.sampled_from(CMDS)), "kind": kind, "point": draw(st.sampled_from(POINTS)) if kind != "return" else "main",
+    return {"cmd": draw(st.sampled_from(CMDS)), "kind": kind, "point": draw(st.sampled_from(POINTS)) if kind not in ("return", "connerr+bug") else "main",
             "artifacts": draw(st.booleans()), "db": draw(st.sampled_from(["off", "on", "on", "on", "dir", "garbage", "schema"])), "lock": draw(st.booleans()),
             "hooks_enabled": draw(st.sampled_from([True, True, True, False])), "pre_hook": draw(st.sampled_from(HOOKS)), "post_hook": draw(st.sampled_from(HOOKS)),
             "db_close": draw(st.sampled_from([None, None, None, None, "complete", "disconnect", "complete-ve", "disconnect-ve"])),
@@ -574,7 +581,7 @@ def case_s(draw) -> dict[str, Any]:
 def grid() -> list[dict[str, Any]]:
     out = []
     for cmd, kind, art, db, lock in itertools.product(CMDS, KINDS, [False, True], ["off", "on", "dir", "garbage", "schema"], [False, True]):
-        for point in (POINTS if kind != "return" else ["main"]):
+        for point in (POINTS if kind not in ("return", "connerr+bug") else ["main"]):
             for he, pre, post in [(True, "none", "none"), (True, "ok", "ok"), (True, "fail", "ok"), (True, "ok", "fail"), (True, "missing", "missing"), (False, "ok", "fail"), (True, "signal", "signal")]:
                 out.append({"cmd": cmd, "kind": kind, "point": point, "artifacts": art, "db": db, "lock": lock, "hooks_enabled": he, "pre_hook": pre, "post_hook": post,
                             "rich": {"pdu": "22f190", "service": 0x27, "ids": [1, 16, 255], "mask": 0x7F, "count": 300} if (len(out) % 3 == 0) else None,
